@@ -9,6 +9,8 @@ Property theorems (model: `OpcuaVerif.Model.C39`, the code after the seven `fix:
 
 * safety      : `eval_total` / `evalElem_no_panic` — no clause (well formed or not, accepted by
                 `validate_where_clause` or not — it accepts everything) makes evaluation panic
+* termination : `eval_terminates` / `evalElem_fuel` — the recursion is bounded by the number of elements
+                (the model's fuel `length + 1` is never exhausted)
 * logic       : `and_truth_table`, `or_truth_table`, `not_truth_table` (Part 4 tables 120/121),
                 `logic_non_boolean_is_null`
 * comparison  : `compare_int_correct` (two integers of any two integer types compare as numbers,
@@ -145,6 +147,152 @@ theorem eval_total (elems : List Element) : evalClause false elems ≠ .panic :=
   split
   · simp
   · exact evalElem_no_panic _ _ _ _
+
+
+/-! ### Evaluation terminates within the fuel `number of elements + 1` -/
+
+theorem bind_fuel (r : Res) (f : V → Res) (hr : r ≠ .err .outOfFuel) (hf : ∀ v, f v ≠ .err .outOfFuel) :
+    r.bind f ≠ .err .outOfFuel := by
+  cases r <;> simp_all [Res.bind]
+
+theorem compareOperands_fuel (vo : Operand → Res) (hvo : ∀ o, vo o ≠ .err .outOfFuel) (a b : Operand) :
+    compareOperands false vo a b ≠ .inl (.err .outOfFuel) := by
+  unfold compareOperands
+  have ha := hvo a
+  have hb := hvo b
+  cases h1 : vo a with
+  | panic => simp
+  | err c => simp; intro h; subst h; exact ha h1
+  | ok v1 =>
+    cases h2 : vo b with
+    | panic => simp
+    | err c => simp; intro h; subst h; exact hb h2
+    | ok v2 =>
+      simp only []
+      split <;> simp
+
+theorem cmpRes_fuel (r : Res ⊕ Cmp) (f : Cmp → Bool) (hr : r ≠ .inl (.err .outOfFuel)) :
+    cmpRes r f ≠ .err .outOfFuel := by
+  unfold cmpRes
+  cases r <;> simp_all
+
+theorem inListGo_fuel (vo : Operand → Res) (o0 : Operand) (os : List Operand) :
+    inListGo false vo o0 os ≠ .err .outOfFuel := by
+  induction os with
+  | nil => simp [inListGo]
+  | cons o rest ih =>
+    unfold inListGo
+    split <;> simp_all
+
+theorem applyOp_fuel (vo : Operand → Res) (hvo : ∀ o, vo o ≠ .err .outOfFuel) (op : FOp)
+    (os : List Operand) (hlen : minOperands op ≤ os.length) :
+    applyOp false vo op os ≠ .err .outOfFuel := by
+  have hva : ∀ t o, valueAs vo t o ≠ .err .outOfFuel :=
+    fun t o => bind_fuel _ _ (hvo o) (by intro v; simp)
+  have hc := compareOperands_fuel vo hvo
+  rcases os with _ | ⟨a, _ | ⟨b, _ | ⟨c, rest⟩⟩⟩ <;> cases op <;>
+    (try (simp [minOperands] at hlen; done)) <;>
+    simp only [applyOp, List.getElem?_cons_zero, List.getElem?_cons_succ, List.drop]
+  all_goals first
+    | exact cmpRes_fuel _ _ (hc _ _)
+    | exact inListGo_fuel vo _ _
+    | (simp; done)
+    | (apply bind_fuel _ _ (hvo _); intro v; simp; done)
+    | (apply bind_fuel _ _ (hva _ _); intro v; split <;> simp; done)
+    | (have := hc a b
+       split
+       · rename_i e he; rw [he] at this; simpa using this
+       · split
+         · exact cmpRes_fuel _ _ (hc _ _)
+         · simp)
+    | (apply bind_fuel _ _ (hva _ _); intro v1
+       apply bind_fuel _ _ (hva _ _); intro v2
+       split <;> (try split) <;> simp; done)
+    | (apply bind_fuel _ _ (hvo _); intro v1
+       apply bind_fuel _ _ (hvo _); intro v2
+       split <;> (try split) <;> simp; done)
+    | (apply bind_fuel _ _ (hvo _); intro v1
+       apply bind_fuel _ _ (hvo _); intro v2
+       split <;> simp)
+
+/-- number of element indices below `n` that are not yet marked as used -/
+def unused (n : Nat) (used : List Nat) : Nat := (List.range n).countP (fun j => !used.contains j)
+
+theorem unused_cons (n i : Nat) (used : List Nat) (hi : i < n) (hu : used.contains i = false) :
+    unused n (i :: used) + 1 = unused n used := by
+  induction n with
+  | zero => omega
+  | succ m ih =>
+    unfold unused at *
+    rw [List.range_succ, List.countP_append, List.countP_append]
+    by_cases him : i = m
+    · subst him
+      have e : (List.range i).countP (fun j => !(i :: used).contains j) =
+          (List.range i).countP (fun j => !used.contains j) := by
+        apply List.countP_congr
+        intro j hj
+        have : j ≠ i := by have := List.mem_range.mp hj; omega
+        simp [List.contains_cons, this]
+      rw [e]
+      have hu' : i ∉ used := by simpa using hu
+      simp [hu']
+    · have := ih (by omega)
+      have e : ([m].countP fun j => !(i :: used).contains j) = [m].countP fun j => !used.contains j := by
+        have : m ≠ i := fun h => him h.symm
+        simp [List.contains_cons, this]
+      rw [e]
+      omega
+
+theorem evalElem_fuel (fuel : Nat) (elems : List Element) (used : List Nat) (e : Element)
+    (hf : unused elems.length used + 1 ≤ fuel) :
+    evalElem false fuel elems used e ≠ .err .outOfFuel := by
+  induction fuel generalizing used e with
+  | zero => omega
+  | succ n ih =>
+    unfold evalElem
+    split
+    · simp
+    · split
+      · simp
+      · split
+        · simp
+        · split
+          · simp
+          · rename_i os _ _ hlen
+            apply applyOp_fuel
+            · intro o
+              cases o <;> simp [valueOfWith]
+              rename_i i
+              split
+              · simp
+              · rename_i hc
+                split
+                · rename_i e' he'
+                  apply ih
+                  have hi : i < elems.length := by
+                    have := List.getElem?_eq_some_iff.mp he'
+                    exact this.1
+                  have := unused_cons elems.length i used hi (by simpa using hc)
+                  omega
+                · simp
+            · simp at hlen
+              omega
+
+/-- **Evaluation terminates**: with the fuel `evaluate_where_clause` is modelled with (one unit per
+nesting level; a level marks one more element as used, so there are at most `length` levels) the
+model never runs out of fuel — the recursion of the real code is bounded by the number of elements. -/
+theorem eval_terminates (elems : List Element) : evalClause false elems ≠ .err .outOfFuel := by
+  unfold evalClause
+  split
+  · simp
+  · rename_i e rest
+    apply evalElem_fuel
+    have : unused (e :: rest).length [0] ≤ (e :: rest).length := by
+      unfold unused
+      have := List.countP_le_length (p := fun j => !([0] : List Nat).contains j) (l := List.range (e :: rest).length)
+      simpa using this
+    -- index 0 is used, so strictly fewer than `length` remain; `length + 1` units are plenty
+    omega
 
 
 /-! ### Three-valued logic -/
@@ -330,6 +478,12 @@ theorem C39_counterexample_like_underscore :
 /-- `%` must match any run of characters: the implementation's `.*` stops at a newline -/
 theorem C39_counterexample_like_newline :
     likeSpec [37] [97, 10, 98] = some true ∧ likeImpl [37] [97, 10, 98] = some false := by decide
+
+/-- after an escaped backslash a wildcard must still be a wildcard: the implementation looks at the
+single preceding character and takes it literally -/
+theorem C39_counterexample_like_escaped_backslash :
+    likeSpec [92, 92, 37] [92, 97, 98] = some true ∧ likeImpl [92, 92, 37] [92, 97, 98] = some false ∧
+    likeSpec [92, 92, 37] [92, 37] = some true ∧ likeImpl [92, 92, 37] [92, 37] = some true := by decide
 
 /-! ### Agreement on the patterns made of ordinary characters and `%` -/
 
